@@ -19,6 +19,9 @@ func families(thorough bool) []*family {
 		fs = append(fs, famSlice(3), famMaps(3), famCF(1), famCF(2))
 	}
 	fs = append(fs, famFT())
+	fs = append(fs, famCmp(), famKeyedLit())
+	fs = append(fs, famsRange(thorough)...)
+	fs = append(fs, famArrayAssign())
 	for _, t := range numTypes() {
 		fs = append(fs, famConst(t))
 	}
